@@ -1345,6 +1345,7 @@ func checkC15(w *World, r *Report) {
 	ruleFlushReturnsErrors(w, r, "C15")
 	ruleOptionTable(w, r, "C15", map[string][3]string{"WithDebugOutput": {tPState, "debugOut", "paramOrDefault"}})
 	checkProducerClose(w, r, "C15")
+	checkIteratorConsumers(w, r, "C15")
 	checkOneFrame(w, r, "C15")
 	fi := w.analyseFlush()
 	ruleFlushOutcome(w, r, "C15", fi)
